@@ -93,7 +93,20 @@ PlainLadder(i, n) == IF i > n THEN <<>>
 PlainLadderXsd(n) == [name |-> "ladder.xsd", kind |-> "xsd", tns |-> "Urich", xmlns |-> << <<"", "Urich">> >>, items |-> PlainLadder(1, n)]
 LadderXsd(n) == [name |-> "ladder.xsd", kind |-> "xsd", tns |-> "Urich", xmlns |-> << <<"t", "Urich">> >>, items |-> Ladder(1, n)]
 
-Bases == << [label |-> "rich-xsd", start |-> "rich.xsd", files |-> <<RichXsd, OtherXsd>>, mutable |-> TRUE, feat |-> {}],
+\* a forward chain of extensions: type i extends type i+1, declared in that order (every base is converted ahead of its
+\* declaration, from inside the conversion of its derived type): with the forward memo the work is one conversion per
+\* type and reference; without it the chain is walked again from every level
+RECURSIVE ExtChain(_, _)
+CName(i) == "Chain" \o ToString(i)
+ExtChain(i, n) == IF i > n THEN <<>>
+                  ELSE << [k |-> "complex", n |-> CName(i), base |-> IF i = n THEN None0 ELSE [k |-> "named", p |-> "t", n |-> CName(i + 1)],
+                           content |-> << [k |-> "seq", min |-> 1, max |-> "1", ps |-> << El("item" \o ToString(i), Str, 0, "1") >>] >>, attrs |-> <<>>] >>
+                       \o ExtChain(i + 1, n)
+ExtChainXsd(n) == [name |-> "chain.xsd", kind |-> "xsd", tns |-> "Urich", xmlns |-> << <<"t", "Urich">> >>, items |-> ExtChain(1, n)]
+CONSTANT ChainN
+
+Bases == << [label |-> "ext-chain", start |-> "chain.xsd", files |-> <<ExtChainXsd(ChainN)>>, mutable |-> FALSE, feat |-> {"ref_ladder"}],
+            [label |-> "rich-xsd", start |-> "rich.xsd", files |-> <<RichXsd, OtherXsd>>, mutable |-> TRUE, feat |-> {}],
             [label |-> "wsdl", start |-> "svc.wsdl", files |-> <<SvcWsdl, OtherXsd>>, mutable |-> TRUE, feat |-> {}],
             [label |-> "self-referential", start |-> "selfref.xsd", files |-> <<SelfXsd>>, mutable |-> TRUE, feat |-> {"self_reference", "import_cycle"}],
             [label |-> "ladder-26", start |-> "ladder.xsd", files |-> <<LadderXsd(26)>>, mutable |-> FALSE, feat |-> {"ref_ladder"}],
